@@ -15,15 +15,24 @@
 (*   a shadowing variable (the mutation that must be caught).              *)
 (* Universe = "table": the concrete programs of the adapter methods and    *)
 (*   mapper compositions (TxCore!Prog) over a finite set of branches.      *)
+(* Dialect = "mysql": database/sql + go-sql-driver semantics and the MySQL *)
+(*   adapter's programs; "pg": pgx + PostgreSQL semantics (aborted         *)
+(*   transaction blocks, savepoints, no rollback-on-cancel) and the        *)
+(*   PostgreSQL adapter's programs.                                        *)
 (***************************************************************************)
 EXTENDS TxCore
 
-CONSTANTS Universe, MaxStmts, GenShadow
+CONSTANTS Universe, MaxStmts, GenShadow, Dialect
 
 VARIABLE s
 
 \* ------------------------------------------------------------------ generic programs
-Alphabet == {St("UPDATE", "t"), St("SELECT", "t"), Dup("INSERT", "t"), Pr("INSERT", "t"), Own(St("UPDATE", "u"))}
+Alphabet == IF Dialect = "mysql"
+            THEN {St("UPDATE", "t"), St("SELECT", "t"), Dup("INSERT", "t"), Pr("INSERT", "t"), Own(St("UPDATE", "u"))}
+            ELSE {St("UPDATE", "t"), St("SELECT", "t"), Dup("INSERT", "t"), Cl(St("INSERT", "u"), <<REL>>), REL}
+\* (statements whose error the code ignores are not part of the as-intended discipline in general: TLC shows that
+\*  SAVEPOINT; <ignored failure>; ROLLBACK TO SAVEPOINT; COMMIT swallows the failure.  The savepoint idiom of
+\*  createSubscription, where ROLLBACK TO is only issued after a duplicate key, is checked in the "table" universe.)
 Alphabet2 == Alphabet \cup (IF GenShadow THEN {Shadow(a) : a \in Alphabet} ELSE {})
 StepSeqs == UNION {[1..n -> Alphabet2] : n \in 0..MaxStmts}
 \* an auto-commit statement that succeeded cannot be followed by an error exit (it is already durable)
@@ -34,7 +43,8 @@ GenericOps ==
   ({OpOf(<<[tx |-> TRUE, ctx |-> c, steps |-> st, end |-> e, named |-> nm]>>) :
        st \in StepSeqs, c \in BOOLEAN, e \in {"commit", "errexit"}, nm \in BOOLEAN}
    \cup {OpOf(<<[tx |-> FALSE, ctx |-> FALSE, steps |-> st, end |-> e, named |-> FALSE]>>) :
-       st \in {x \in StepSeqs : Len(x) <= 1 /\ \A k \in DOMAIN x : x[k].e = "STMT"}, e \in {"commit", "errexit"}})
+       st \in {x \in StepSeqs : Len(x) <= 1 /\ \A k \in DOMAIN x : x[k].e = "STMT" /\ ~x[k].ign /\ x[k].verb \notin {"SAVEPOINT", "ROLLBACK_TO"}},
+       e \in {"commit", "errexit"}})
   \ NoTxErrAfterWrite
 
 \* ------------------------------------------------------------------ the concrete table
@@ -66,25 +76,26 @@ TableCases ==
   \cup {<<"Users.Create", [P0 EXCEPT !.tags = tg]>> : tg \in 0..2}
   \cup {<<"Topics.Create", [P0 EXCEPT !.tags = tg, !.subs = <<<<0, 1>>>>]>> : tg \in 0..2}
   \cup {<<"Messages.DeleteList", [P0 EXCEPT !.mode = m, !.ranges = r]>> : m \in {"all", "soft", "hard"}, r \in 1..2}
-TableOps == {Prog(c[1], c[2]) : c \in TableCases}
+TableOps == {Prog(c[1], c[2], Dialect) : c \in TableCases}
 
-Ops == IF Universe = "generic" THEN GenericOps ELSE TableOps
+Ops == IF Universe = "generic" THEN {[o EXCEPT !.dialect = Dialect] : o \in GenericOps} ELSE TableOps
 
 \* ------------------------------------------------------------------ the state machine
 Init == \E op \in Ops, cfg \in Configs :
           \/ s = InitState(op, cfg, 0, "none")
           \/ \E fk \in 1..NRoundTrips(op), kind \in FaultKinds \ {"none"} : s = InitState(op, cfg, fk, kind)
 
-Begin         == s.pc = "call" /\ CurSeg(s).tx /\ s' = DoCall(s)
-CallNoTx      == s.pc = "call" /\ ~CurSeg(s).tx /\ s' = DoCall(s)
-Stmt          == s.pc = "step" /\ s.i <= Len(CurSeg(s).steps) /\ s.open /\ s' = DoStep(s)
-StmtOutsideTx == s.pc = "step" /\ s.i <= Len(CurSeg(s).steps) /\ ~s.open /\ s' = DoStep(s)
-StmtsDone     == s.pc = "step" /\ s.i > Len(CurSeg(s).steps) /\ s' = DoStep(s)
-Commit        == s.pc = "end" /\ CurSeg(s).end = "commit" /\ s' = DoEnd(s)
-ErrExit       == s.pc = "end" /\ CurSeg(s).end = "errexit" /\ s' = DoEnd(s)
-Rollback      == s.pc = "defer" /\ s.errVar /\ s.sqlTx /\ s' = DoDefer(s)
-Return        == s.pc = "defer" /\ ~(s.errVar /\ s.sqlTx) /\ s' = DoDefer(s)
-Mapper        == s.pc = "next" /\ s' = DoNext(s)
+Begin         == s.pc = "call" /\ CurSeg(s).tx /\ s' = Step(s)
+CallNoTx      == s.pc = "call" /\ ~CurSeg(s).tx /\ s' = Step(s)
+MoreStmts     == s.cq # <<>> \/ (~s.failing /\ s.i <= Len(CurSeg(s).steps))
+Stmt          == s.pc = "step" /\ MoreStmts /\ s.open /\ s' = Step(s)
+StmtOutsideTx == s.pc = "step" /\ MoreStmts /\ ~s.open /\ s' = Step(s)
+StmtsDone     == s.pc = "step" /\ ~MoreStmts /\ s' = Step(s)
+Commit        == s.pc = "end" /\ CurSeg(s).end = "commit" /\ s' = Step(s)
+ErrExit       == s.pc = "end" /\ CurSeg(s).end = "errexit" /\ s' = Step(s)
+Rollback      == s.pc = "defer" /\ s.errVar /\ s.sqlTx /\ s' = Step(s)
+Return        == s.pc = "defer" /\ ~(s.errVar /\ s.sqlTx) /\ s' = Step(s)
+Mapper        == s.pc = "next" /\ s' = Step(s)
 
 Next == Begin \/ CallNoTx \/ Stmt \/ StmtOutsideTx \/ StmtsDone \/ Commit \/ ErrExit \/ Rollback \/ Return \/ Mapper
 Spec == Init /\ [][Next]_s
